@@ -55,7 +55,9 @@ fn smtp_session<S: Read + Write>(s: &mut S, sc: &Value, inside_tls: bool, log: &
         }
         let up = line.to_ascii_uppercase();
         let r: Vec<u8> = if up.starts_with("EHLO") {
-            let mut lines = vec!["srv".to_string()];
+            // the name line of the reply; inside TLS the scenario may ask for another one (empty = a nameless reply, which the client cannot interpret)
+            let name = if inside_tls { sc["server"]["ehlo_name_after"].as_str().unwrap_or("srv") } else { "srv" };
+            let mut lines = vec![name.to_string()];
             lines.extend(caps.iter().cloned());
             if !inside_tls && sc["server"]["starttls_offered"].as_bool().unwrap_or(false) { lines.push("STARTTLS".into()); }
             let n = lines.len();
@@ -154,6 +156,26 @@ pub fn run_scenario(sc: &Value) -> Value {
     let creds = sc["client"]["creds"].as_bool().unwrap_or(false);
     let timeout = Duration::from_millis(2500);
     let result: String = (|| -> Result<String, String> {
+        if let Some(u) = sc["client"]["url"].as_str() {
+            // the transport built from a connection URL: no TLS parameter is set by the caller, trust comes from the environment (SSL_CERT_FILE)
+            let url = u.replace("{port}", &port.to_string());
+            return if sc["flavor"].as_str() == Some("tokio") {
+                let rt = tokio::runtime::Builder::new_current_thread().enable_all().build().unwrap();
+                rt.block_on(async {
+                    let t = AsyncSmtpTransport::<Tokio1Executor>::from_url(&url).map_err(|e| format!("url: {e}"))?.timeout(Some(timeout))
+                        .hello_name(ClientId::Domain("c06.test".into())).pool_config(PoolConfig::new().max_size(0)).build();
+                    Ok(match tokio::time::timeout(Duration::from_millis(6000), t.send_raw(&env, &msg)).await {
+                        Ok(Ok(r)) => format!("ok,{}", u16::from(r.code())),
+                        Ok(Err(e)) => crate::pure::err_s(&e),
+                        Err(_) => "HANG".into(),
+                    })
+                })
+            } else {
+                let t = SmtpTransport::from_url(&url).map_err(|e| format!("url: {e}"))?.timeout(Some(timeout))
+                    .hello_name(ClientId::Domain("c06.test".into())).pool_config(PoolConfig::new().max_size(0)).build();
+                Ok(match t.send_raw(&env, &msg) { Ok(r) => format!("ok,{}", u16::from(r.code())), Err(e) => crate::pure::err_s(&e) })
+            };
+        }
         let tls = tls_of(sc)?;
         if sc["flavor"].as_str() == Some("tokio") {
             let rt = tokio::runtime::Builder::new_current_thread().enable_all().build().unwrap();
